@@ -264,6 +264,37 @@ func (w *world) verifyFunc(con *Contract, fn *ssa.Function, mode string, variant
 			}
 		}
 	}
+	// probes: entry values of the scalar fields of pointer-typed parameters (for counterexample replay)
+	for _, p := range fn.Params {
+		pt, ok := p.Type().Underlying().(*types.Pointer)
+		if !ok {
+			continue
+		}
+		stT, ok := pt.Elem().Underlying().(*types.Struct)
+		if !ok {
+			continue
+		}
+		pv := fr.regs[p]
+		if pv.t.s == "" {
+			continue
+		}
+		for i := 0; i < stT.NumFields(); i++ {
+			fs, leaf := x.leafSort(stT.Field(i).Type())
+			if !leaf || !(fs.isBV() || fs.isBool()) {
+				continue
+			}
+			arr := x.initialName(structName(pt.Elem()) + "." + stT.Field(i).Name())
+			if !x.seen[arr] {
+				continue
+			}
+			name := symName("probe_" + p.Name() + "." + stT.Field(i).Name())
+			if !x.seen[name] {
+				x.seen[name] = true
+				x.decls = append(x.decls, fmt.Sprintf("(define-fun %s () %s (select %s %s))", name, fs.name, arr, pv.t.s))
+				modelVars = append(modelVars, name)
+			}
+		}
+	}
 	res.ModelVar = modelVars
 	res.Obls = w.discharge(x, con, mode, res.Variant, modelVars, opts)
 	return res
